@@ -627,6 +627,20 @@ class Executor:
             dom = z3.Lambda([k], z3.And(d.has(k), cond))
             varr = z3.Lambda([k], val)
             return st.alloc(DictV(dom, varr, d.ksort, val.sort()))
+        if isinstance(src, Ref) and isinstance(st.deref(src), DictV) and isinstance(g.target, ast.Name):
+            # {k: f(k) for k in d}
+            d = st.deref(src)
+            kname = g.target.id
+            k = fresh("ck", d.ksort)
+            sub = st.clone()
+            sub.frames.append({"__closure__": st.loc, kname: k})
+            cond = z3.BoolVal(True)
+            for c in g.ifs:
+                cond = z3.And(cond, self._pure(c, sub))
+            if not (isinstance(e.key, ast.Name) and e.key.id == kname):
+                raise Unsupported("dictcomp with re-keyed entries")
+            val = self.lift(self._pure(e.value, sub))
+            return st.alloc(DictV(z3.Lambda([k], z3.And(d.has(k), cond)), z3.Lambda([k], val), d.ksort, val.sort()))
         if isinstance(src, tuple) and src[0] == "range":
             lo, hi = src[1], src[2]
             iname = g.target.id
